@@ -23,6 +23,10 @@
 //! * `all`    — `single` + `merge`.
 //! * `<op>-<mt>[-shared][-via]` — one program, e.g. `filter_mapi-om-shared`,
 //!   `fold.u1r0-rc-via`, `cfold.u0r1i1-bt`, `merge-bt`.
+//! * `tiny`   — 4 programs: one per implementation path, rotating over the map types
+//!   (filter_mapi-bt, fold.u1r0-rc, cfold.u1r0i1-om, partition_mapi-om).
+//! * prefixes `never-` / `pinned-` (any order, after `rounds-`) switch on the program flags
+//!   `input_never` / `pinned_input` for every program of the set — see "Equal-input runs".
 //! * suffix `-k<N>` overrides K: `single-k2`, `single-k4`, `merge-k3`, `merge-bt-k1`.
 //!
 //! Two alphabets:
@@ -51,6 +55,36 @@
 //!             `c15/rounds-merge` 3 noprune with `split_first` (4.25 M histories per program:
 //!             over the default `max_states` without the split), `c15/rounds-merge-k1` 5
 //!             noprune, `c15/single-k4` 6.
+//!
+//! ## Equal-input runs (`input_never`, `pinned_input`)
+//!
+//! In the plain programs an operator never *runs* on an input equal to its stored old input: the
+//! input variable has the default cutoff, and while the operator is unobserved nothing keeps the
+//! variable node following the writes. Two program flags make such runs reachable:
+//! * `input_never` (`c15/never-<set>`, `c15/rounds-never-<set>`): the input variable(s) get
+//!   `Cutoff::Never`; writing an equal map makes the operator run on an equal input.
+//! * `pinned_input` (`c15/pinned-<set>`, `c15/rounds-pinned-<set>`): a permanent observer sits on
+//!   the input variable(s); A -> (detach) B -> A -> (re-attach) lets the operator run on an input
+//!   equal to its stored one.
+//! Oracle: unchanged. The diff of such a round is empty, so no user-function call is accepted in
+//!   it, and the next round may only touch the keys that really differ (the re-attachment slack
+//!   applies to the re-attachment round only, not to the round after it). The model records
+//!   "the operator's last run was on an equal input" (`equal_run`, read off the operator node's
+//!   recomputation stamp in the dump) and includes it in the digest, so that the pruned BFS does
+//!   not merge the state after such a run with the state before it.
+//! `incr_merge` cannot be reached this way: its internal `zip` node has the default cutoff and
+//!   swallows equal pairs before the merge node (witness `rounds_equal_input_run` stays 0 in
+//!   `never-merge` / `pinned-merge`); those families are accepted but add little.
+//! Seeded change C17-a (`old_input` refreshed only `if didchange`) is found by every family below;
+//! shortest history: never + observe, set A, stabilise, set A, stabilise, set A, stabilise.
+//! Recommended (single-core CPU seconds, rel):
+//! * quick (~36 s):    `c15/rounds-never-core-k2` 3 noprune (3 s), `c15/never-core-k2` 7 (3.5 s),
+//!                     `c15/rounds-pinned-tiny-k2` 4 noprune (19.5 s), `c15/pinned-core-k2` 7 (10 s;
+//!                     the pruned pinned family needs depth 11 to reach the seeded change).
+//! * thorough (~510 s): `c15/rounds-never-core` 3 noprune (92 s), `c15/never-core` 8 (173 s),
+//!                     `c15/rounds-pinned-core-k2` 4 noprune (79 s), `c15/pinned-core-k2` 11 (81 s),
+//!                     `c15/rounds-never-pinned-core-k2` 4 noprune (86 s).
+//! K=1 is useless here (a re-initialisation can only show on a key that did NOT change).
 //!
 //! ## Direct enumeration families (C18; no BFS; the job's *depth* field is the size parameter)
 //!
@@ -97,7 +131,7 @@ use world::{MapsWorld, Prog};
 
 fn single_programs(k: u8) -> Vec<Prog> {
     let mut out = vec![];
-    let p = |op: Op, mt: Mt, shared: bool, via: bool| Prog { op, mt, shared, via, k, rounds: false };
+    let p = |op: Op, mt: Mt, shared: bool, via: bool| Prog { op, mt, shared, via, k, rounds: false, input_never: false, pinned_input: false };
     for (mt, shared) in [(Mt::Bt, false), (Mt::Rc, false), (Mt::Om, false), (Mt::Om, true)] {
         for op in [Op::Map, Op::FilterMap, Op::Mapi, Op::FilterMapi] {
             out.push(p(op, mt, shared, false));
@@ -124,7 +158,7 @@ fn merge_programs(k: u8) -> Vec<Prog> {
     let mut out = vec![];
     for (mt, shared) in [(Mt::Bt, false), (Mt::Om, false), (Mt::Om, true)] {
         for via in [false, true] {
-            out.push(Prog { op: Op::Merge, mt, shared, via, k, rounds: false });
+            out.push(Prog { op: Op::Merge, mt, shared, via, k, rounds: false, input_never: false, pinned_input: false });
         }
     }
     out
@@ -135,12 +169,19 @@ fn programs(family: &str) -> Vec<Prog> {
     let Some(rest) = family.strip_prefix("c15/").or_else(|| family.strip_prefix("c17/")) else {
         return vec![];
     };
-    if let Some(r) = rest.strip_prefix("rounds-") {
-        let mut v = programs(&format!("c15/{r}"));
-        for p in v.iter_mut() {
-            p.rounds = true;
+    // modifiers, in any order: rounds- / never- / pinned-
+    for (prefix, set) in [("rounds-", 0), ("never-", 1), ("pinned-", 2)] {
+        if let Some(r) = rest.strip_prefix(prefix) {
+            let mut v = programs(&format!("c15/{r}"));
+            for p in v.iter_mut() {
+                match set {
+                    0 => p.rounds = true,
+                    1 => p.input_never = true,
+                    _ => p.pinned_input = true,
+                }
+            }
+            return v;
         }
-        return v;
     }
     // optional -k<N>
     let (rest, k) = match rest.rsplit_once("-k") {
@@ -161,6 +202,11 @@ fn programs(family: &str) -> Vec<Prog> {
                     }
             };
             return single_programs(k.unwrap_or(3)).into_iter().filter(core).collect();
+        }
+        "tiny" => {
+            // one program per implementation path, rotating over the map types
+            let pick = [(Op::FilterMapi, Mt::Bt), (Op::Fold { update: true, revert: false }, Mt::Rc), (Op::CFold { update: true, revert: false, initial: true }, Mt::Om), (Op::PartitionMapi, Mt::Om)];
+            return single_programs(k.unwrap_or(3)).into_iter().filter(|p| !p.via && !p.shared && pick.contains(&(p.op, p.mt))).collect();
         }
         "merge" => return merge_programs(k.unwrap_or(2)),
         "all" => {
@@ -192,7 +238,7 @@ fn programs(family: &str) -> Vec<Prog> {
         return vec![];
     }
     let k = k.unwrap_or(if op == Op::Merge { 2 } else { 3 });
-    vec![Prog { op, mt, shared, via, k, rounds: false }]
+    vec![Prog { op, mt, shared, via, k, rounds: false, input_never: false, pinned_input: false }]
 }
 
 pub fn units(job: &JobDef, _tier: Tier) -> usize {
